@@ -937,6 +937,11 @@ def corpus_item(job):
             if w >= 1 << 31:
                 res["witness"]["width>=2^31"] = True
         res["discharged"] += 5 - len(failed)
+        if by_out and "width>=2^31" not in res["witness"]:
+            sv = z3.Solver()
+            sv.add(z3.Or(*[c for cs in by_out.values() for c in cs]), z3.UGE(WSYM, z3.BitVecVal(1 << 31, 32)))
+            if sv.check() == z3.sat:
+                res["witness"]["width>=2^31"] = True
         if len(by_out) > 1:
             res["witness"]["layout-depends-on-width"] = True
         if any(k in COMMENT_KINDS for k, _ in tin):
@@ -955,8 +960,8 @@ def corpus_item(job):
 TIERS = {
     # kernel_size: all skeletons with <= this many nodes; kernel_t0: also with empty Text atoms (one size smaller)
     # mutant_bytes: texts of at most this many bytes get layout mutants; mutant_stride: every n-th token boundary
-    "quick": {"kernel_size": 5, "kernel_t0": 4, "mutant_bytes": 40, "mutant_stride": 3, "budget_s": 540},
-    "thorough": {"kernel_size": 6, "kernel_t0": 5, "mutant_bytes": 120, "mutant_stride": 1, "budget_s": 3300},
+    "quick": {"kernel_size": 5, "kernel_t0": 4, "mutant_bytes": 32, "mutant_stride": 4, "budget_s": 420},
+    "thorough": {"kernel_size": 6, "kernel_t0": 5, "mutant_bytes": 120, "mutant_stride": 1, "budget_s": 3000},
 }
 
 
@@ -971,7 +976,8 @@ def chunks(xs, n):
 def main(tier):
     t0 = time.time()
     cfg = dict(TIERS[tier])
-    for k, env in (("kernel_size", "VERIF_C17_KERNEL"), ("mutant_bytes", "VERIF_C17_MUTANT_BYTES"), ("mutant_stride", "VERIF_C17_STRIDE")):
+    for k, env in (("kernel_size", "VERIF_C17_KERNEL"), ("mutant_bytes", "VERIF_C17_MUTANT_BYTES"), ("mutant_stride", "VERIF_C17_STRIDE"),
+                   ("budget_s", "VERIF_C17_BUDGET")):
         if os.environ.get(env):
             cfg[k] = int(os.environ[env])
     setup = Setup()
@@ -1060,6 +1066,7 @@ def main2(tier, cfg, t0, setup, natpath):
     cres = common.fork_map(corpus_item, [(setup, natpath, cid, text, (soft, deadline)) for cid, text in uniq], J)
     C = {"paths": 0, "outputs": 0, "sub_paths": 0, "queries": 0, "solver_time": 0.0, "steps": 0, "obligations": 0, "discharged": 0, "native_runs": 0}
     cviol, cwit, csamples, status = [], {}, [], {}
+    invalid = [r["id"] for r in cres if r["status"] == "not-a-valid-source"]
     max_bytes = max_nodes = max_groups = max_paths = 0
     for r in cres:
         status[r["status"]] = status.get(r["status"], 0) + 1
@@ -1124,7 +1131,7 @@ def main2(tier, cfg, t0, setup, natpath):
             "corpus_unit_test_inputs": len(corpus), "corpus_inputs_not_extracted": skipped,
             "corpus_mutants": "of every unit-test input of <= %d bytes: `/* c */` and `// c\\n` inserted at %s token boundary; every blank/newline token replaced by a line break, by two blank lines, by blanks+tab"
                               % (cfg["mutant_bytes"], "every" if cfg["mutant_stride"] == 1 else "every %d-th" % cfg["mutant_stride"]),
-            "corpus_texts_total": len(uniq), "corpus_texts_checked": status.get("ok", 0) + status.get("prefix-panic", 0), "corpus_status": status, "corpus_max_text_bytes": max_bytes, "corpus_max_doc_nodes": max_nodes,
+            "corpus_texts_total": len(uniq), "corpus_texts_checked": status.get("ok", 0) + status.get("prefix-panic", 0), "corpus_status": status, "corpus_texts_with_parse_errors_skipped": invalid[:40], "corpus_max_text_bytes": max_bytes, "corpus_max_doc_nodes": max_nodes,
             "corpus_max_groups": max_groups, "corpus_max_paths_per_text": max_paths},
         "paths": K["paths"] + C["paths"] + C["sub_paths"], "queries": K["queries"] + C["queries"],
         "solver_time_s": round(K["solver_time"] + C["solver_time"], 2), "mir_blocks_executed": K["steps"] + C["steps"],
